@@ -29,6 +29,26 @@ Goals == <<
   C1("once", P(X)),                                              \* 13
   Conj(C1("assertz", P(X)), Log(C1("a", X)))                     \* 14 assert a copy of the current binding (or a variable)
 >>
+(* second family: a two-argument predicate whose clauses form two first-argument-indexed runs separated by a *)
+(* clause with a variable first argument (m(a,1). m(_,2). m(b,3).), called with bound and unbound first argument *)
+K == V("K")
+M(k, v) == C2("m", k, v)
+GoalsM == <<
+  Conj(M(A("a"), X), Log(C1("s", X))),                            \* 1  iterate with a bound (indexed) first argument
+  Conj(M(A("b"), Y), Log(C1("t", Y))),                            \* 2
+  Conj(M(K, Y), Log(C2("u", K, Y))),                              \* 3  unbound first argument
+  C1("assertz", M(A("a"), I(4))),                                 \* 4  new key for the last run
+  C1("assertz", M(A("b"), I(5))),                                 \* 5
+  C1("asserta", M(A("a"), I(0))),                                 \* 6
+  C1("assertz", M(V("W"), I(6))),                                 \* 7  another variable-headed clause: a third run may follow
+  C1("retract", M(A("a"), I(1))),                                 \* 8
+  Conj(C1("retract", M(A("b"), Y)), Log(C1("r", Y))),             \* 9
+  C1("assertz", M(A("c"), I(7)))                                  \* 10 a key no run had
+>>
+NGM == Len(GoalsM)
+ScriptsM == UNION {[1..n -> 1..NGM] : n \in 1..3}
+InitM == << [h |-> M(A("a"), I(1)), b |-> True], [h |-> M(V("Z"), I(2)), b |-> True], [h |-> M(A("b"), I(3)), b |-> True] >>
+
 NG == Len(Goals)
 MaxLen == IF Tier = "quick" THEN 3 ELSE 4
 Scripts == UNION {[1..n -> 1..NG] : n \in 1..MaxLen}
@@ -38,17 +58,21 @@ Inits == { <<>>, SubSeq(Init0, 1, 1), SubSeq(Init0, 1, 2), Init0 }
 
 VARIABLES m, sc
 Init == m = [phase |-> "gen"] /\ sc = <<>>
+GenM == /\ m.phase = "gen"
+        /\ \E s \in ScriptsM : \E ve \in BOOLEAN :
+             /\ sc' = [j \in 1..Len(s) |-> 100 + s[j]]
+             /\ m' = [Load(InitM, {<<"m", 2>>}, ConjOf([j \in 1..Len(s) |-> GoalsM[s[j]]] \o <<Fail>>)) EXCEPT !.ve = ve]
 Gen == /\ m.phase = "gen"
        /\ \E s \in Scripts : \E i0 \in (IF Tier = "quick" THEN {Init0, SubSeq(Init0, 1, 1)} ELSE Inits) :
             /\ sc' = s
             /\ \E ve \in BOOLEAN :
                  m' = [Load(i0, {<<"p", 1>>}, ConjOf([j \in 1..Len(s) |-> Goals[s[j]]] \o <<Fail>>)) EXCEPT !.ve = ve]
 Run1 == m.phase = "run" /\ m' = Step(m) /\ UNCHANGED sc
-Next == Gen \/ Run1
+Next == Gen \/ GenM \/ Run1
 
 Inv == MachineOk(m) /\ CollectorsOk(m)
 FinalDb == LET al == SelectSeq(m.db, LAMBDA c : ~c.dead) IN [j \in 1..Len(al) |-> C2(":-", al[j].h, al[j].b)]
 Emit == m.phase = "done" /\ m.status \in {"done", "exc"} =>
           PrintT(ToJson([sc |-> sc, ve |-> m.ve, prog |-> m.prog, q |-> m.q, qv |-> m.qv, ans |-> m.ans, status |-> m.status,
-                         ball |-> m.ball, balts |-> m.balts, out |-> m.out, db |-> FinalDb, dynkeys |-> << <<"p", 1>> >>]))
+                         ball |-> m.ball, balts |-> m.balts, out |-> m.out, db |-> FinalDb, dynkeys |-> (IF Len(sc) > 0 /\ sc[1] > 100 THEN << <<"m", 2>> >> ELSE << <<"p", 1>> >>)]))
 =============================================================================
